@@ -49,6 +49,11 @@ def tlc_validate(mod, rec, trace_file, timeout=600):
         if not accepted and not inv and hard:
             log(out[-3000:])
             raise ToolError("TLC failed on trace %s: %s" % (trace_file, hard[:2]))
+        # a rejection is only believed when TLC ran to completion (the POSTCONDITION printed the
+        # high-water mark); a killed or crashed TLC is a tool error, never a verdict
+        if not accepted and not inv and (high is None or p.returncode not in (0, 12, 13)):
+            log(out[-2000:])
+            raise ToolError("TLC did not finish validating %s (rc=%s)" % (trace_file, p.returncode))
         return dict(accepted=accepted and not inv, highwater=high, invariant=inv,
                     wall_s=round(time.time() - t0, 2), tail=out.splitlines()[-25:])
     finally:
